@@ -33,7 +33,8 @@ def seq_sum(s):
             for i in range(c):
                 r = r + mk(s.e[i])
             return r
-        return SymInt(seqsum.f(s.e)) if True else None
+        seqsum._define()
+        return SymInt(seqsum.f(s.e))
     return sum(s)
 
 
@@ -289,3 +290,82 @@ def buf_word(x, endian="little"):
     for i, b in enumerate(items):
         r = r + b * (1 << (8 * i))
     return r
+
+
+# ---------------------------------------------------------------- struct (assumed contract, T4)
+
+import struct as _struct
+
+_STRUCT_CODES = {"B": (1, False), "H": (2, False), "I": (4, False), "L": (4, False), "Q": (8, False),
+                 "b": (1, True), "h": (2, True), "i": (4, True), "l": (4, True), "q": (8, True)}
+
+
+def _struct_fmt(fmt):
+    order = "little"
+    if fmt and fmt[0] in "<>!=@":
+        order = "big" if fmt[0] in ">!" else "little"
+        if fmt[0] in "=@":
+            raise Undecided("native struct byte order")
+        fmt = fmt[1:]
+    codes = []
+    for ch in fmt:
+        if ch not in _STRUCT_CODES:
+            raise Undecided("struct format %r not modelled" % ch)
+        codes.append(_STRUCT_CODES[ch])
+    return order, codes
+
+
+class struct_proxy:
+    """struct.pack / unpack for fixed-size integer codes with explicit byte order:
+    pack raises struct.error iff a value is outside the code's range, otherwise yields the
+    big-/little-endian two's-complement image; unpack is its inverse and raises struct.error
+    iff the buffer length differs from the format's size.  Concrete calls use the real module."""
+    error = _struct.error
+    calcsize = staticmethod(_struct.calcsize)
+    Struct = _struct.Struct
+
+    @staticmethod
+    def pack(fmt, *vals):
+        if not any(S.is_sym(v) for v in vals):
+            return _struct.pack(fmt, *vals)
+        order, codes = _struct_fmt(fmt)
+        if len(codes) != len(vals):
+            raise _struct.error("pack expected %d items for packing (got %d)" % (len(codes), len(vals)))
+        items = []
+        for (n, signed), v in zip(codes, vals):
+            lo, hi = (-(1 << (8 * n - 1)), 1 << (8 * n - 1)) if signed else (0, 1 << (8 * n))
+            if not bool((v >= lo) & (v < hi)):
+                raise _struct.error("argument out of range")
+            bs = [(v >> (8 * i)) & 0xFF for i in range(n)]
+            if order == "big":
+                bs.reverse()
+            items.extend(bs)
+        r = SymSeq.from_list(items, "bytes")
+        r.elem_bounds = (0, 256)
+        return r
+
+    @staticmethod
+    def unpack(fmt, data):
+        if not isinstance(data, (SymSeq, SymBuf)):
+            return _struct.unpack(fmt, data)
+        order, codes = _struct_fmt(fmt)
+        total = sum(n for n, _ in codes)
+        if isinstance(data, SymSeq):
+            if not bool(data._len() == total):
+                raise _struct.error("unpack requires a buffer of %d bytes" % total)
+        elif len(data) != total:
+            raise _struct.error("unpack requires a buffer of %d bytes" % total)
+        out = []
+        pos = 0
+        for n, signed in codes:
+            bs = [data[pos + i] for i in range(n)]
+            pos += n
+            if order == "big":
+                bs.reverse()
+            v = 0
+            for i, b in enumerate(bs):
+                v = v + b * (1 << (8 * i))
+            if signed:
+                v = v - ite(bs[-1] >= 128, lambda: (1 << (8 * n)), lambda: 0)
+            out.append(v)
+        return tuple(out)
